@@ -696,6 +696,14 @@ impl Debugger {
                 }
                 StopReason::Watchpoint(pid, current_pc, ref ty) => {
                     self.ecx_switch_thread(pid)?;
+                    if let debugee::tracer::WatchpointHitType::EndOfScope(wps) = ty
+                        && self.scope_ended_watchpoints(pid, wps).is_empty()
+                    {
+                        // the scope end is reached by another activation (or thread) than the
+                        // one that owns the watched variables: nothing ends here
+                        while self.step_over_breakpoint()?.is_some() {}
+                        continue;
+                    }
                     self.execute_on_watchpoint_hook(pid, current_pc, ty)?;
                     break event;
                 }
